@@ -99,6 +99,11 @@ register('C09', 'Hypothesis (mesh history, element, residual family, order, path
          'assembled == per-element sums; rotation equivariance.',
          'vlib/slobo.py closed forms and references; patches longer than half the curve, corner patches of piece ratio > 4 and polynomial data kinked inside a seam arc are excluded and counted', 'DESIGN.md 3/C09')
 
+register('C03', 'generated problem/domain/switch/history cases through the driver\'s steps and the real example.py (runpy) with the residual integrated per element by an independent graded rule',
+         'All 12 problem x domain combinations, both switches: assemble, solve, ErrorEstimator.residual; zero mean on every leaf within 5e-5 int|r| + 1e-12 at two quadrature '
+         'resolutions; example.py itself for its first 2-3 adaptive loops (anisotropic / uniform) with ErrorEstimator.residual wrapped; deterministic nested-interval meshes.',
+         'vlib/c03lib.py rule (two resolutions must agree to a tenth of the bound); meshes with a node within 1e-5 of an element end or above the point budget excluded and counted', 'DESIGN.md 3/C03')
+
 NOT_YET = {}
 def main():
     props = [json.loads(l)['id'] for l in open(os.path.join(V, 'properties.jsonl'))]
